@@ -34,7 +34,11 @@ def build_witness(log=None):
                 f.write(toml.replace('path = "/repo"', f'path = "{repo}"'))
         lock = os.path.join(src, "Cargo.lock")
         if not os.path.exists(lock):
-            shutil.copyfile(os.path.join(repo, "Cargo.lock"), lock)
+            # a scratch worktree has no Cargo.lock (it is not tracked in /repo): fall back to /repo's, then to the witness crate's own
+            for cand in (os.path.join(repo, "Cargo.lock"), "/repo/Cargo.lock", os.path.join(WITNESS_DIR, "Cargo.lock")):
+                if os.path.exists(cand):
+                    shutil.copyfile(cand, lock)
+                    break
         p = subprocess.run(["cargo", "build", "--offline", "--target-dir", os.path.join(BUILD, "witness")],
                            cwd=src, env=kp.env_offline(), stdout=subprocess.PIPE, stderr=subprocess.STDOUT, text=True)
         if log:
